@@ -104,6 +104,20 @@ PROPS = {
    "expansion on two fresh encoders inside arbitrary contexts); oracle: same result class, same depth, both decode to "
    "the stream's value.",
    "Kernel-checked for the CBOR encoder; UBJSON/JSON by mirror + correspondence + oracle."),
+ "C12": P("DESIGN.md 7 C12",
+   "Lean 4 proof (code's tag parser = documented tag grammar for every tag string; announced-length rule) + differential correspondence of the Fold mirror + independent Rules specification as oracle",
+   "tag_rules_agree: for every tag string the code's parseTags and the documented grammar (Rules.parseTag) agree on member "
+   "name, dropped (- / omit), inlined (inline / squash) and omitempty, whatever the order, repetition, spacing and unknown "
+   "options (induction over the option list). announced_length_rule: a struct announces its member count only if no kept "
+   "field is omitempty or inlined. Correspondence: ops `fold` (type x value x fault index -> extended events + outcome, "
+   "map order taken from the implementation), `fold-seq` (one iterator vs fresh iterators), `typeinfo` (reflect description "
+   "of every menagerie type vs the Lean descriptor), `goval`. Oracle: SF/Gotype/Rules.lean, a recursive definition of the "
+   "VALUE a Go value folds to, written from the documentation only (tags.go comment, README, CHANGELOG); compared with "
+   "the value built from the emitted events up to map order.",
+   "Kernel-checked tag rules over all tag strings; the value-level statement Fold = Rules over all types x values by mirror + correspondence + oracle.",
+   tb=["model: SF/Gotype/Fold.lean (mirror of gotype/fold*.go, tags.go), SF/Gotype/Types.lean (type/value universe, menagerie); spec: SF/Gotype/Rules.lean"],
+   assumptions=GOTYPE_ASSUME,
+   partial="Fold.impl agrees with Rules.fold for all types and values: not yet proved (decided by oracle on generated types x values)"),
  "C13": P("DESIGN.md 7 C13",
    "Lean 4 proof (ignore state machine swallows one complete value of any shape and restores the context exactly) + differential correspondence of the Unfolder mirror + specification oracle",
    "unknown_member_skipped / unknown_members_skipped / ignore_swallows_value: for every context (target, stacks, buffers, "
